@@ -620,9 +620,13 @@ std::unique_ptr<typename Fam::SK> feed(const Cell& c, const std::vector<float>& 
     return s;
   }
   static const double cut_default[5] = {0.0, 0.4, 0.7, 0.9, 1.0};
-  const double* cut = c.merge == 2 ? Fam::mixed_cuts() : cut_default;
+  const bool mixed = c.merge == 2 || c.merge == 4;
+  const double* cut = mixed ? Fam::mixed_cuts() : cut_default;
+  // merge == 4: the mixed-k merge tree is built from the first 80% of the stream, the result is serialized and restored
+  // (stream image in even trials, byte image in odd ones) and the RESTORED sketch receives the rest
+  const size_t tree_len = c.merge == 4 ? stream.size() * 4 / 5 : stream.size();
   size_t bound[5];
-  for (int i = 0; i <= 4; ++i) bound[i] = static_cast<size_t>(cut[i] * static_cast<double>(stream.size()));
+  for (int i = 0; i <= 4; ++i) bound[i] = static_cast<size_t>(cut[i] * static_cast<double>(tree_len));
   const size_t quantum = round_chunks ? static_cast<size_t>(Fam::chunk_quantum(c.cfg)) : 0;
   if (quantum > 0 && stream.size() >= 8 * quantum) {
     // every merge SOURCE (parts 1, 2, 3) gets a length that is a multiple of the quantum (classic: of 2k of every k involved, so
@@ -632,7 +636,7 @@ std::unique_ptr<typename Fam::SK> feed(const Cell& c, const std::vector<float>& 
   }
   std::unique_ptr<SK> p[4];
   for (int i = 0; i < 4; ++i) {
-    p[i].reset(new SK(Fam::make(c.merge == 2 ? Fam::mixed_cfg(c.cfg, i) : c.cfg)));
+    p[i].reset(new SK(Fam::make(mixed ? Fam::mixed_cfg(c.cfg, i) : c.cfg)));
     for (size_t j = bound[i]; j < bound[i + 1]; ++j) p[i]->update(enc(stream[j]));
   }
   // the destinations are queried right before each merge (as a monitoring loop does): the query sorts level 0 / the base
@@ -644,6 +648,17 @@ std::unique_ptr<typename Fam::SK> feed(const Cell& c, const std::vector<float>& 
   p[2]->merge(std::move(*p[3]));
   if (!p[0]->is_empty()) { volatile double x = p[0]->get_rank(probe, true); (void)x; }
   p[0]->merge(*p[2]);
+  if (c.merge == 4) {
+    std::unique_ptr<SK> restored(new SK(Fam::roundtrip_image(*p[0], round_chunks)));
+    checked();
+    if (Fam::published_error_text(*restored) != Fam::published_error_text(*p[0]) || restored->get_n() != p[0]->get_n()) {
+      fail(std::string(Fam::name()) + "|sampled|merge-4way-mixed-k-serde|published-error-changed-by-serialization-round-trip",
+           std::string(round_chunks ? "byte image" : "stream image") + ": original publishes " + Fam::published_error_text(*p[0]) + " n=" + std::to_string(p[0]->get_n()) +
+           ", restored publishes " + Fam::published_error_text(*restored) + " n=" + std::to_string(restored->get_n()));
+    }
+    for (size_t j = tree_len; j < stream.size(); ++j) restored->update(enc(stream[j]));
+    return restored;
+  }
   return std::move(p[0]);
 }
 
@@ -665,7 +680,7 @@ bool sorted_view_consistent(const SK& s, uint64_t n, std::string& why, const std
 
 inline std::string cell_text(const char* fam, const std::string& cfg, const Cell& c) {
   return std::string(fam) + " sampled " + cfg + " n=" + std::to_string(c.n) + " order=" + order_name(c.order) +
-         " merge=" + (c.merge == 0 ? "none" : (c.merge == 1 ? "4-way" : (c.merge == 2 ? "4-way-mixed-k" : "older-sketch-into-fresh-then-long-stream"))) + " trials=" + std::to_string(c.trials);
+         " merge=" + (c.merge == 0 ? "none" : (c.merge == 1 ? "4-way" : (c.merge == 2 ? "4-way-mixed-k" : (c.merge == 3 ? "older-sketch-into-fresh-then-long-stream" : "4-way-mixed-k-then-serde-round-trip-then-continue")))) + " trials=" + std::to_string(c.trials);
 }
 
 // mean-rank z-test shared by all families: mean estimated rank over the trials vs the true rank.
@@ -686,6 +701,72 @@ inline void mean_rank_test(const std::string& kp, const std::string& ctx, const 
   }
 }
 
+// ------------------------------------------------------------------------------------------------
+// doubling merges: two lineages A, B of the same multiset (different arrival orders and coins) are merged into each other
+// again and again (A <- B, B <- old A), so n doubles per step and passes 2^32 .. 2^44 although every merge only handles
+// retained items; the true rank of every value stays what it was.  After every merge, on both sketches: get_n and the
+// sorted view's total weight == n0 * 2^j (64-bit), view ascending and made of inputs, get_rank == get_CDF at the same
+// point, every query method == fresh sorted view, and the estimate within what the sketch publishes
+// (Fam::within_published) for at least 95% of (step, query, criterion) pairs.
+template<typename Fam>
+void doubling_case(int cfg, uint64_t n0, int steps, int reps, Rng& r) {
+  typedef typename Fam::SK SK;
+  const std::string fam = Fam::name();
+  const std::string kp = fam + "|doubling-merges|";
+  const std::string ctx0 = fam + " doubling merges " + Fam::cfg_text(cfg) + " n0=" + std::to_string(n0) + " steps=" + std::to_string(steps) + " reps=" + std::to_string(reps);
+  describe(ctx0);
+  std::vector<float> inputs(n0); for (uint64_t i = 0; i < n0; ++i) inputs[i] = static_cast<float>(i);
+  std::vector<float> qv;
+  for (int i = 0; i < 40; ++i) qv.push_back(static_cast<float>((2 * i + 1) * n0 / 80));
+  for (uint64_t d : {uint64_t(0), uint64_t(1), uint64_t(5), uint64_t(20), uint64_t(60)}) { qv.push_back(static_cast<float>(d)); qv.push_back(static_cast<float>(n0 - 1 - d)); }
+  std::sort(qv.begin(), qv.end()); qv.erase(std::unique(qv.begin(), qv.end()), qv.end());
+  std::vector<Item> iq; for (float v : qv) iq.push_back(enc(v));
+  uint64_t pairs = 0, inside = 0; std::string worst;
+  for (int rep = 0; rep < reps; ++rep) {
+    const uint64_t sd = r.next();
+    ds::random_utils::random_bit.script = nullptr; ds::random_utils::random_bit.seed(static_cast<uint32_t>(sd)); ds::random_utils::rand.seed(sd ^ 0x51ed);
+    std::vector<float> pa = inputs, pb = inputs; r.shuffle(pa); r.shuffle(pb);
+    SK A(Fam::make(cfg)), B(Fam::make(cfg));
+    for (float v : pa) A.update(enc(v));
+    for (float v : pb) B.update(enc(v));
+    uint64_t n = n0;
+    for (int j = 1; j <= steps; ++j) {
+      SK oldA(A);
+      if (j & 1) A.merge(B); else { SK tmp(B); A.merge(std::move(tmp)); }
+      B.merge(oldA);
+      n *= 2;
+      const std::string ctx = ctx0 + " rep=" + std::to_string(rep) + " coin_seed=" + std::to_string(static_cast<uint32_t>(sd)) + " after merge " + std::to_string(j) + " n=" + std::to_string(n);
+      for (int which = 0; which < 2; ++which) {
+        const SK& s = which ? B : A;
+        VF_CHECK(s.get_n() == n, kp + "n-not-true-n", ctx + " get_n=" + std::to_string(s.get_n()));
+        { std::string why; const bool vok = sorted_view_consistent(s, n, why, &inputs);
+          VF_CHECK(vok, kp + (why.find("never an input") != std::string::npos ? "retained-item-not-an-input" : "sorted-view-not-sorted-or-total-weight-not-n"), ctx + " " + why); }
+        { std::string why; const bool qok = queries_match_fresh_view(s, why); VF_CHECK(qok, kp + "query-answer-differs-from-current-sorted-view", ctx + " " + why); }
+        for (int incl = 0; incl < 2; ++incl) {
+          auto cdf = s.get_CDF(iq.data(), static_cast<uint32_t>(iq.size()), incl == 1);
+          for (size_t i = 0; i < qv.size(); ++i) {
+            const double est = s.get_rank(iq[i], incl == 1);
+            const double tr = (static_cast<double>(qv[i]) + (incl ? 1.0 : 0.0)) / static_cast<double>(n0);
+            VF_CHECK(std::fabs(est - cdf[i]) <= 1e-12, kp + "get_rank-differs-from-get_CDF", ctx + " v=" + str(qv[i]) + (incl ? " inclusive" : " exclusive") + " get_rank=" + str(est) + " get_CDF=" + str(cdf[i]) + " true=" + str(tr));
+            const bool in = Fam::within_published(s, est, tr);
+            pairs++; inside += in;
+            if (!in && worst.empty()) worst = " first outside: " + ctx + " v=" + str(qv[i]) + " est=" + str(est) + " true=" + str(tr);
+          }
+        }
+      }
+      count(fam + "_dbl_merges", 2);
+      if (n >= (1ULL << 34)) count(fam + "_dbl_merges_n_ge_2p34", 2);
+      if (n >= (1ULL << 42)) count(fam + "_dbl_merges_n_ge_2p42", 2);
+    }
+  }
+  const double frac = static_cast<double>(inside) / static_cast<double>(std::max<uint64_t>(1, pairs));
+  VF_CHECK(frac >= 0.95, kp + "estimate-outside-published-error-too-often", ctx0 + " pairs=" + std::to_string(pairs) + " fraction_within_published=" + str(frac) + " required=0.95" + worst);
+  count(fam + "_dbl_cases");
+  count(fam + "_dbl_pairs", pairs);
+  sig(mix64(mix64(static_cast<uint64_t>(cfg), n0), inside));
+  if (getenv("C08_VERBOSE")) fprintf(stderr, "%s pairs=%llu frac=%.5f\n", ctx0.c_str(), (unsigned long long)pairs, frac);
+}
+
 // KLL and classic: published normalized rank error (single- and double-sided)
 template<typename Fam>
 void sampled_cell_eps(const Cell& c, Rng& r) {
@@ -693,7 +774,7 @@ void sampled_cell_eps(const Cell& c, Rng& r) {
   const std::string fam = Fam::name();
   const std::string ctx = cell_text(Fam::name(), Fam::cfg_text(c.cfg), c);
   describe(ctx);
-  const std::string kp = fam + "|sampled|" + (c.merge == 0 ? "single-stream" : (c.merge == 1 ? "merge-4way" : "merge-4way-mixed-k")) + "|";
+  const std::string kp = fam + "|sampled|" + (c.merge == 0 ? "single-stream" : (c.merge == 1 ? "merge-4way" : (c.merge == 4 ? "merge-4way-mixed-k-serde" : "merge-4way-mixed-k"))) + "|";
   Truth t = make_truth(c, r);
   // 200-point grid by true quantile
   std::vector<size_t> grid;
@@ -759,6 +840,7 @@ void sampled_cell_eps(const Cell& c, Rng& r) {
   count(fam + "_smp_cells");
   if (c.merge) count(fam + "_smp_cells_merged");
   if (c.merge == 2) count(fam + "_smp_cells_mixed_k");
+  if (c.merge == 4) count(fam + "_smp_cells_mixed_k_serde");
   count(fam + "_smp_cells_" + order_name(c.order));
   if (f1 < 1.0) count(fam + "_smp_cells_with_some_trial_beyond_eps");
   sig(mix64(mix64(c.n, static_cast<uint64_t>(c.cfg)), mix64(static_cast<uint64_t>(c.order * 4 + c.merge), dbits(std::floor(worst1 * 1e9)))));
